@@ -491,6 +491,8 @@ func gen(seed uint64, tier string) {
 		{hole, big},                                                        // hole listed first (not valid as written)
 		{big, hole, ring{pt(5, 5), pt(5, 6), pt(6, 6)}[0:3]},               // nested hole in hole (not valid)
 		{ring{pt(0, 0), pt(20, 0), pt(20, 20), pt(10, 6), pt(0, 20)}, ring{pt(4, 2), pt(16, 2), pt(16, 4)}}, // notch
+		// every vertex of the shell is touched by a hole (no vertex of the shell decides): area() falls through to its "matches" logic
+		{ring{pt(0, 0), pt(12, 0), pt(0, 12)}, ring{pt(0, 0), pt(3, 1), pt(1, 3)}, ring{pt(12, 0), pt(8, 1), pt(9, 2)}, ring{pt(0, 12), pt(1, 8), pt(2, 9)}},
 	} {
 		fmt.Fprintf(out, "area g %s\ncent g %s\n", G(p), G(p))
 		fmt.Fprintf(out, "marea g %s\nmcent g %s\n", G(geom.MultiPolygon{p}), G(geom.MultiPolygon{p}))
@@ -674,6 +676,77 @@ func gen(seed uint64, tier string) {
 				}
 			}
 		}
+	}
+
+	// ---- rings that touch in a single point (valid in the OGC sense; Spec.ValidPolyT) ----
+	// a hole vertex on a side of a rectangular shell / on the extreme vertex of a diamond or triangle
+	// shell (the touch point lies on the shell's bounding box), a hole vertex on a slanted shell edge,
+	// two holes touching each other; with and without further holes strictly inside; every spelling
+	nTouch := 10
+	if tier == "thorough" {
+		nTouch = 120
+	}
+	for i := 0; i < nTouch; i++ {
+		ox, oy := r.Range(-30, 30), r.Range(-30, 30)
+		W, H := r.Range(12, 30), r.Range(12, 30)
+		a, b, c := r.Range(2, 5), r.Range(1, 3), r.Range(1, 3)
+		var base []ring
+		switch i % 6 {
+		case 0: // hole vertex on the left side of a rectangle
+			ym := oy + r.Range(4, H-4)
+			base = []ring{rect(ox, oy, ox+W, oy+H), {pt(ox, ym), pt(ox+a, ym-b), pt(ox+a, ym+c)}}
+		case 1: // on the top side
+			xm := ox + r.Range(4, W-4)
+			base = []ring{rect(ox, oy, ox+W, oy+H), {pt(xm, oy+H), pt(xm-b, oy+H-a), pt(xm+c, oy+H-a)}}
+		case 2: // on the right / bottom side, second hole strictly inside
+			ym := oy + r.Range(4, H/2-1)
+			base = []ring{rect(ox, oy, ox+W, oy+H), {pt(ox+W, ym), pt(ox+W-a, ym+c), pt(ox+W-a, ym-b)}, rect(ox+2, oy+H-4, ox+5, oy+H-2)}
+			if r.Bool() {
+				xm := ox + r.Range(4, W-4)
+				base[1] = ring{pt(xm, oy), pt(xm+c, oy+a), pt(xm-b, oy+a)}
+			}
+		case 3: // hole vertex on the extreme vertex of a diamond (b, c < a keeps it in the corner wedge)
+			h := r.Range(8, 20)
+			base = []ring{diamond(ox, oy, h), {pt(ox-h, oy), pt(ox-h+a+3, oy-b), pt(ox-h+a+3, oy+c)}}
+			if r.Bool() {
+				base[1] = ring{pt(ox, oy+h), pt(ox-b, oy+h-a-3), pt(ox+c, oy+h-a-3)}
+			}
+		case 4: // hole vertex on the slanted edge of a right triangle (touch point not on the bounding box) + a corner touch
+			L := 4 * r.Range(4, 8)
+			k := r.Range(2, L/2-2)
+			base = []ring{{pt(ox, oy), pt(ox+L, oy), pt(ox, oy+L)}, {pt(ox+k, oy+L-k), pt(ox+k-1, oy+L-k-3), pt(ox+k-3, oy+L-k-1)}}
+		default: // two holes touching each other in one point, strictly inside the shell
+			base = []ring{rect(ox, oy, ox+W, oy+H), rect(ox+2, oy+2, ox+5, oy+5), {pt(ox+5, oy+3), pt(ox+8, oy+2), pt(ox+8, oy+6)}}
+		}
+		mo := 24
+		if len(base) == 2 {
+			mo = 256
+			if tier != "thorough" && i >= 6 {
+				mo = 40
+			}
+		}
+		secondScale := 0 // dyadic exponent of the second member (sums stay exact)
+		emitT := func(q []ring, ss []spell) {
+			g := G(toPoly(q))
+			fmt.Fprintf(out, "area g%s %s\ncent g%s %s\n", lay(r), g, lay(r), g)
+			if allClosed(ss) || r.Intn(4) == 0 {
+				second := toPoly(scaleRings([]ring{respell(rect(ox+100, oy, ox+104, oy+4), spell{rev: r.Bool(), closed: true})}, secondScale))
+				mp := geom.MultiPolygon{toPoly(q)}
+				if r.Bool() {
+					mp = append(mp, second)
+				}
+				fmt.Fprintf(out, "mcent g%s %s\nmarea g%s %s\n", lay(r), G(mp), lay(r), G(mp))
+			}
+		}
+		orbit(r, base, mo, emitT)
+		for rep := 0; rep < 6; rep++ { // all closed (the statement's centroid clause), random directions and start vertices
+			q, ss := randSpells(base, true, rep%2 == 0)
+			emitT(q, ss)
+		}
+		secondScale = dyadic[r.Intn(len(dyadic))]
+		q, ss := randSpells(scaleRings(base, secondScale), true, false)
+		emitT(q, ss)
+		// (no float images: an affine image in floating point does not keep a vertex exactly on an edge)
 	}
 
 	// ---- size thresholds: vertex counts and member counts around powers of two ----
